@@ -1,6 +1,7 @@
 import Driver.Common
 import SSV.Model.Parsers
 import SSV.Model.Repack
+import SSV.Model.StreamHS
 /-
 C06 driver: one entry point call per line, answer `ok <canonical value>` | `err <class>` | `panic`.
 Bytes are hex (`-` = empty). See harness/cmd/corr_c06 for the line formats.
@@ -205,6 +206,15 @@ def step (_ : Unit) (line : String) : Unit × String :=
         pure (match s5UDPNewSession (← bool? auth) [1, 4, 117, 115, 101, 114, 4, 112, 97, 115, 115] (fun _ => r) (← ofHex? h) with
           | .ok x => "ok " ++ (if x.1 then Addr.ip4 x.2.1 x.2.2 else Addr.ip6 x.2.1 x.2.2).render
           | .err _ => "err session"       -- over a real TCP socket the error kind (EOF / reset) is the kernel's business
+          | .panic => "panic")
+    | ["hs", saltLen, idLen, urspLen, seg, fb, now, chunk0, total, replayed, prefixOk, userFound, saltAdded, openFixed, openVar, rest] => do
+        let cfg : HSCfg := ⟨← saltLen.toNat?, ← idLen.toNat?, ← urspLen.toNat?, ← bool? seg, ← bool? fb⟩
+        let ov ← optBytes? openVar
+        pure (match handleStream cfg (← int? now) (← chunk0.toNat?) (← total.toNat?) (← bool? replayed) (← bool? prefixOk) (← bool? userFound)
+            (← bool? saltAdded) (← optBytes? openFixed) (fun _ => ov) (← ofHex? rest) with
+          | .ok (some (a, payload), _) => s!"ok {a.render} {toHexField payload}"
+          | .ok (none, n) => s!"fallback {n}"
+          | .err e => "err " ++ e.name
           | .panic => "panic")
     | ["directpack", target, targetOnly, srcIsTarget, plen, maxLen] => do
         pure (showR (fun (_ : Unit) => "packed") (directServerPack (← addr? target) (← bool? targetOnly) (← bool? srcIsTarget) (← plen.toNat?) (← maxLen.toNat?)))
